@@ -68,10 +68,11 @@ impl<S> Layer<S> for Mark {
 impl<S> Service<Request<Bytes>> for Marked<S>
 where
     S: Service<Request<Bytes>, Response = Response<Bytes>, Error = Infallible>,
+    S::Future: Send + 'static,
 {
     type Response = Response<Bytes>;
     type Error = Infallible;
-    type Future = S::Future;
+    type Future = std::pin::Pin<Box<dyn std::future::Future<Output = Result<Response<Bytes>, Infallible>> + Send>>;
     fn poll_ready(&mut self, cx: &mut Context<'_>) -> Poll<Result<(), Infallible>> {
         self.0.poll_ready(cx)
     }
@@ -79,7 +80,16 @@ where
         let mut trace = req.headers().get("trace").cloned().unwrap_or_default();
         trace.push_str(&format!(";l{}", self.1));
         req.headers_mut().insert("trace".into(), trace);
-        self.0.call(req)
+        // the layer also marks the response, so that it is visible on whatever it wraps (the fallback too)
+        let id = self.1;
+        let fut = self.0.call(req);
+        Box::pin(async move {
+            let mut resp = fut.await?;
+            let mut seen = resp.headers().get("layers-seen").cloned().unwrap_or_default();
+            seen.push_str(&format!(";l{id}"));
+            resp.headers_mut().insert("layers-seen".into(), seen);
+            Ok(resp)
+        })
     }
 }
 
@@ -152,7 +162,8 @@ pub fn run() {
             outs.push(match r {
                 Ok(resp) => {
                     if resp.status() == anemo::types::response::StatusCode::NotFound && resp.body().is_empty() {
-                        "404".to_string()
+                        // a route layer that ran for an unmatched request shows here
+                        format!("404{}", resp.headers().get("layers-seen").cloned().unwrap_or_default())
                     } else {
                         String::from_utf8_lossy(resp.body()).to_string()
                     }
